@@ -167,7 +167,7 @@ func classifyReject(name, text string, err error) string {
 	}
 	_, _, _, cls := lib.ErrClass(err.Error())
 	switch cls {
-	case "duplicate-module":
+	case "duplicate-module", "bad-module-name":
 		return "rejected-add"
 	case "not-a-module":
 		return "rejected-notmodule"
